@@ -269,6 +269,10 @@ class C03(Prop):
             out.count("baseline_unreadable")
             return out
         base = {c["id"]: self.flow_packets(fl0, c["id"]) for c in spec["conns"] if c["id"] != vid}
+        span = {}
+        for e in ex0["taplog"]:
+            a, b = span.get(e["conn"], (e["i"], e["i"]))
+            span[e["conn"]] = (min(a, e["i"]), max(b, e["i"]))
         only = spec.get("only_fault")
         flist = [tuple(only)] if only else self.fault_list(spec, ex0, spec.get("tier", "quick"))
         out.sample["faults"] = [f for _, f in flist[:6]]
@@ -299,8 +303,16 @@ class C03(Prop):
                 out.violate("output-readable", "unreadable:%s" % getattr(e, "rule", type(e).__name__), tag, focus=[kind, f])
                 continue
             for cid, pk in base.items():
-                if kind in ("cut", "late") or (kind == "pair" and any(k2 in ("cut", "late") for k2, _ in f["pair"])):
-                    continue     # the capture process fault hits every flow; bystander identity is judged by C08
+                if kind == "pair" and any(k2 in ("cut", "late") for k2, _ in f["pair"]):
+                    continue
+                if kind in ("cut", "late"):
+                    # the capture process fault hits every flow it overlaps (C08 judges those); a bystander that lies
+                    # entirely inside the captured part must still be exported unchanged
+                    lo_i, hi_i = span.get(cid, (0, -1))
+                    if kind == "late" and not lo_i >= f["i"]:
+                        continue
+                    if kind == "cut" and not hi_i < f["i"]:
+                        continue
                 if self.flow_packets(fl, cid) != pk:
                     bc = [c for c in spec["conns"] if c["id"] == cid][0]
                     out.violate("bystander-unchanged", "bystander-%s-changed" % bc["proto"],
